@@ -2,6 +2,7 @@ CONSTANTS
   Good <- MCGood2
   Bad <- MCBad2
   MaxOps = 6
+  WithGet = TRUE
 INIT Init
 NEXT Next
 INVARIANTS BatchEq Idempotent NamesUnique Export
